@@ -442,6 +442,20 @@ impl Manip {
                     // panics are C06's business; the invariants are still checked below
                     ctx.count("panics_seen");
                 }
+                // a node handed out by a call is a live node (a call that merely echoes its own argument is not judged:
+                // any_append(parent, text) returns the caller's text node even when consolidation has merged it away)
+                if let Outcome::Ok(Some(r)) = &outcome {
+                    let (a1, a2) = op.args();
+                    let echo = a1 == Some(*r) || a2 == Some(*r);
+                    if !echo && guard(|| f.xot.is_removed(*r)).unwrap_or(true) {
+                        ctx.violation(
+                            "a call handed out a removed node",
+                            format!("{}/{}/I7-returned-node-is-removed/{}", prop, opname, c),
+                            detail(f, hist, "the node returned by the call is_removed"),
+                        );
+                        return false;
+                    }
+                }
                 if let (Op::Parse(s), Outcome::Ok(Some(d))) = (op, &outcome) {
                     for id in ["i1", "i2"] {
                         if s.contains(&format!("\"{}\"", id)) {
